@@ -491,7 +491,14 @@ def expand_quantified_returns(tree: ast.Module) -> int:
                             if isinstance(other, (ast.FunctionDef, ast.AsyncFunctionDef)) and any(y is st for y in ast.walk(other)):
                                 inside = {id(y) for y in ast.walk(st.test)}
                                 fn_names = {y.id for y in ast.walk(other) if isinstance(y, ast.Name) and id(y) not in inside}
-                        if not (bound & fn_names):
+                        if bound & fn_names:
+                            # the comprehension's variable would leak into the function: give it a name of its own
+                            total_ren = {b_: f"{b_}__q{total}" for b_ in bound & fn_names}
+                            for part in [gen.target, elt] + list(gen.ifs):
+                                for y in ast.walk(part):
+                                    if isinstance(y, ast.Name) and y.id in total_ren:
+                                        y.id = total_ren[y.id]
+                        if True:
                             test = _neg(elt) if kind == "all" else elt
                             body = [ast.If(test=test, body=st.body, orelse=[])]
                             for cond in reversed(gen.ifs):
@@ -1446,7 +1453,228 @@ def fold_field_aliases(tree: ast.Module) -> int:
     return total
 
 
+# ---------------------------------------------------------------------------------------------- (17) annotations
+def strip_annotations(tree: ast.Module) -> int:
+    """`x: T = v` is the statement `x = v`; a bare declaration `x: T` is no statement at all; parameter and return
+    annotations carry no behaviour (the package never inspects `__annotations__`; checked: no such read)."""
+    if any(isinstance(n, ast.Attribute) and n.attr == "__annotations__" for n in ast.walk(tree)) or any(
+            isinstance(n, ast.Call) and isinstance(n.func, ast.Name) and n.func.id in ("dataclass", "get_type_hints") for n in ast.walk(tree)) or any(
+            isinstance(d, (ast.Name, ast.Attribute, ast.Call)) and "dataclass" in ast.unparse(d) for c in ast.walk(tree) if isinstance(c, ast.ClassDef) for d in c.decorator_list):
+        return 0
+    total = 0
+    for holder in ast.walk(tree):
+        for fld in ("body", "orelse", "finalbody"):
+            block = getattr(holder, fld, None)
+            if not (isinstance(block, list) and block and isinstance(block[0], ast.stmt)):
+                continue
+            for i, st in enumerate(block):
+                if isinstance(st, ast.AnnAssign):
+                    if st.value is not None:
+                        new = ast.Assign(targets=[st.target], value=st.value, type_comment=None)
+                    else:
+                        new = ast.Pass()
+                    block[i] = ast.copy_location(new, st)
+                    total += 1
+        if isinstance(holder, FUNC):
+            for a in holder.args.args + holder.args.kwonlyargs + holder.args.posonlyargs + [x for x in (holder.args.vararg, holder.args.kwarg) if x is not None]:
+                if a.annotation is not None:
+                    a.annotation = None
+                    total += 1
+            if holder.returns is not None:
+                holder.returns = None
+                total += 1
+    return total
+
+
+# ---------------------------------------------------------------------------------------------- (18) loops over a literal table
+def unroll_literal_tables(tree: ast.Module) -> int:
+    """`for a, b in ((x1, y1), (x2, y2), …): BODY` over a literal tuple / list of at most 8 rows (written in place, or held in
+    a local that is assigned exactly once, to the literal, and only read by this loop) is written as the sequence of its
+    iterations, with a ↦ x_k, b ↦ y_k (rows of names / constants / attribute chains only; BODY neither stores the loop
+    variables nor contains break / continue of this loop; the variables are not read after the loop)."""
+    total = 0
+    for fn in [n for n in ast.walk(tree) if isinstance(n, FUNC)]:
+        for holder in ast.walk(fn):
+            for fld in ("body", "orelse", "finalbody"):
+                block = getattr(holder, fld, None)
+                if not (isinstance(block, list) and block and isinstance(block[0], ast.stmt)):
+                    continue
+                i = 0
+                while i < len(block):
+                    st = block[i]
+                    i += 1
+                    if not (isinstance(st, ast.For) and not st.orelse):
+                        continue
+                    it = st.iter
+                    table_def = None
+                    if isinstance(it, ast.Name):
+                        defs = [a for a in ast.walk(fn) if isinstance(a, ast.Assign) and len(a.targets) == 1 and isinstance(a.targets[0], ast.Name) and a.targets[0].id == it.id]
+                        uses = [x for x in ast.walk(fn) if isinstance(x, ast.Name) and x.id == it.id and isinstance(x.ctx, ast.Load)]
+                        if len(defs) == 1 and _stores(fn, it.id) == 1 and len(uses) == 1 and isinstance(defs[0].value, (ast.Tuple, ast.List)):
+                            table_def, it = defs[0], defs[0].value
+                    if not (isinstance(it, (ast.Tuple, ast.List)) and 1 <= len(it.elts) <= 8):
+                        continue
+                    tg = st.target
+                    names = [tg.id] if isinstance(tg, ast.Name) else ([e.id for e in tg.elts] if isinstance(tg, (ast.Tuple, ast.List)) and all(isinstance(e, ast.Name) for e in tg.elts) else None)
+                    if names is None:
+                        continue
+                    rows = []
+                    for row in it.elts:
+                        if isinstance(tg, ast.Name):
+                            cells = [row]
+                        elif isinstance(row, (ast.Tuple, ast.List)) and len(row.elts) == len(names):
+                            cells = list(row.elts)
+                        else:
+                            rows = None
+                            break
+                        if not all(_simple_arg(c) for c in cells):
+                            rows = None
+                            break
+                        rows.append(cells)
+                    if not rows:
+                        continue
+                    # body: no store to the loop variables, no break / continue belonging to this loop, no nested definitions
+                    bad = False
+
+                    def scan(stmts, depth):
+                        nonlocal bad
+                        for s_ in stmts:
+                            if isinstance(s_, (ast.Break, ast.Continue)) and depth == 0:
+                                bad = True
+                            if isinstance(s_, FUNC) or isinstance(s_, (ast.ClassDef, ast.Lambda)):
+                                bad = True
+                            for f2 in ("body", "orelse", "finalbody", "handlers"):
+                                sub = getattr(s_, f2, None)
+                                if isinstance(sub, list) and sub and isinstance(sub[0], (ast.stmt, ast.ExceptHandler)):
+                                    scan([x for x in sub if isinstance(x, ast.stmt)] + [y for x in sub if isinstance(x, ast.ExceptHandler) for y in x.body], depth + (1 if isinstance(s_, (ast.For, ast.While)) else 0))
+
+                    scan(st.body, 0)
+                    for x in ast.walk(st):
+                        if x is not tg and isinstance(x, ast.Name) and x.id in names and isinstance(x.ctx, (ast.Store, ast.Del)) and not any(x is y for y in ast.walk(tg)):
+                            bad = True
+                        if isinstance(x, ast.Lambda):
+                            bad = True
+                    inside = {id(x) for x in ast.walk(st)}
+                    if any(isinstance(x, ast.Name) and x.id in names and id(x) not in inside for x in ast.walk(fn)):
+                        bad = True
+                    if bad:
+                        continue
+                    new = []
+                    for cells in rows:
+                        env = dict(zip(names, cells))
+
+                        class _S(ast.NodeTransformer):
+                            def visit_Name(self, n):
+                                if isinstance(n.ctx, ast.Load) and n.id in env:
+                                    return ast.copy_location(copy.deepcopy(env[n.id]), n)
+                                return n
+
+                        for b_ in st.body:
+                            new.append(_S().visit(copy.deepcopy(b_)))
+                    block[i - 1:i] = new
+                    i += len(new) - 1
+                    if table_def is not None:
+                        for h2 in ast.walk(fn):
+                            for f3 in ("body", "orelse", "finalbody"):
+                                bl = getattr(h2, f3, None)
+                                if isinstance(bl, list) and table_def in bl:
+                                    if len(bl) > 1:
+                                        k_ = bl.index(table_def)
+                                        del bl[k_]
+                                        if bl is block and k_ < i:
+                                            i -= 1
+                                    else:
+                                        bl[0] = ast.copy_location(ast.Pass(), table_def)
+                    total += 1
+    if total:
+        ast.fix_missing_locations(tree)
+    return total
+
+
+# ---------------------------------------------------------------------------------------------- (19) lazily initialised loop constants
+def _pure_np(e) -> bool:
+    for n in ast.walk(e):
+        if isinstance(n, ast.Call):
+            f = n.func
+            if isinstance(f, ast.Name) and f.id in PURE_FUNCS:
+                continue
+            if isinstance(f, ast.Attribute) and (f.attr in PURE_METHODS or (isinstance(f.value, ast.Name) and f.value.id in ("np", "numpy", "math") and f.attr in ("sum", "asarray", "array", "sqrt", "exp", "log", "cumsum", "prod"))):
+                continue
+            return False
+        if isinstance(n, (ast.Yield, ast.YieldFrom, ast.Await, ast.NamedExpr, ast.Lambda)):
+            return False
+    return True
+
+
+def inline_lazy_loop_constants(tree: ast.Module) -> int:
+    """`x = None` before a loop whose body starts with `if x is None: x = E` (E pure, over names the loop does not store or
+    change; x read nowhere else) caches a loop constant: every read of x in the loop is written as E, the cache disappears."""
+    total = 0
+    for fn in [n for n in ast.walk(tree) if isinstance(n, FUNC)]:
+        for loop in [n for n in ast.walk(fn) if isinstance(n, (ast.While, ast.For))]:
+            if not loop.body or not isinstance(loop.body[0], ast.If) or loop.body[0].orelse:
+                continue
+            guard = loop.body[0]
+            t = guard.test
+            if not (isinstance(t, ast.Compare) and len(t.ops) == 1 and isinstance(t.ops[0], ast.Is) and isinstance(t.left, ast.Name)
+                    and isinstance(t.comparators[0], ast.Constant) and t.comparators[0].value is None):
+                continue
+            if not all(isinstance(s_, ast.Assign) and len(s_.targets) == 1 and isinstance(s_.targets[0], ast.Name) for s_ in guard.body):
+                continue
+            cached = {s_.targets[0].id: s_.value for s_ in guard.body}
+            if t.left.id not in cached or len(cached) != len(guard.body):
+                continue
+            stored_in_loop = {n.id for st in loop.body[1:] for n in ast.walk(st) if isinstance(n, ast.Name) and isinstance(n.ctx, (ast.Store, ast.Del))}
+            if isinstance(loop, ast.For):
+                stored_in_loop |= {n.id for n in ast.walk(loop.target) if isinstance(n, ast.Name)}
+            changed_in_loop = {n.func.value.id for st in loop.body[1:] for n in ast.walk(st) if isinstance(n, ast.Call) and isinstance(n.func, ast.Attribute) and isinstance(n.func.value, ast.Name)
+                               and n.func.attr in ("append", "extend", "pop", "remove", "clear", "insert", "sort", "reverse", "update", "fill")}
+            changed_in_loop |= {n.value.id for st in loop.body[1:] for n in ast.walk(st) if isinstance(n, ast.Subscript) and isinstance(n.ctx, (ast.Store, ast.Del)) and isinstance(n.value, ast.Name)}
+            ok = True
+            inits = {}
+            for x, e in cached.items():
+                free = {n.id for n in ast.walk(e) if isinstance(n, ast.Name)}
+                if not _pure_np(e) or free & (stored_in_loop | changed_in_loop | set(cached)):
+                    ok = False
+                defs = [a for a in ast.walk(fn) if isinstance(a, ast.Assign) and any(isinstance(tt, ast.Name) and tt.id == x for tt in a.targets)]
+                other = [a for a in defs if a not in guard.body]
+                if len(other) != 1 or not (isinstance(other[0].value, ast.Constant) and other[0].value.value is None) or _stores(fn, x) != 2:
+                    ok = False
+                else:
+                    inits[x] = other[0]
+                inside = {id(n) for n in ast.walk(loop)}
+                if any(isinstance(n, ast.Name) and n.id == x and isinstance(n.ctx, ast.Load) and id(n) not in inside for n in ast.walk(fn)):
+                    ok = False
+            if not ok:
+                continue
+
+            class _S(ast.NodeTransformer):
+                def visit_Name(self, n):
+                    if isinstance(n.ctx, ast.Load) and n.id in cached:
+                        return ast.copy_location(copy.deepcopy(cached[n.id]), n)
+                    return n
+
+            loop.body = [_S().visit(st) for st in loop.body[1:]] or [ast.copy_location(ast.Pass(), guard)]
+            for x, a in inits.items():
+                for h2 in ast.walk(fn):
+                    for f3 in ("body", "orelse", "finalbody"):
+                        bl = getattr(h2, f3, None)
+                        if isinstance(bl, list) and a in bl:
+                            if len(a.targets) == 1:
+                                if len(bl) > 1:
+                                    bl.remove(a)
+                                else:
+                                    bl[0] = ast.copy_location(ast.Pass(), a)
+            total += 1
+    if total:
+        ast.fix_missing_locations(tree)
+    return total
+
+
 def normalise(tree: ast.Module, keep=frozenset(), facts=None) -> Dict[str, int]:
+    strip_annotations(tree)
+    inline_lazy_loop_constants(tree)
+    unroll_literal_tables(tree)
     kz = index_neighbour_pairs(tree)
     kz += fold_field_aliases(tree)
     k8 = positional_package_arguments(tree, facts)
